@@ -121,9 +121,11 @@ impl<T: Copy + Number + std::fmt::Debug> Sparse<T> {
 
     /// Calculate column start vector for a given column index vector
     pub fn col_start_from_index( &self, col_index: &Vector<usize> ) -> Vec<usize> {
+        if col_index.size() != self.nonzero { panic!( "Sparse col_start_from_index: one column index per stored entry is needed." ); }
         let mut col_start = vec![ 0; self.cols + 1 ];
         // Compute the number of non-zero elements in each column
         for n in 0..self.nonzero {
+            if col_index[ n ] >= self.cols { panic!( "Sparse col_start_from_index: column index out of range." ); }
             col_start[ col_index[ n ] ] += 1;
         }
         let mut sum = 0;
